@@ -30,7 +30,7 @@ func init() {
 		Floor:         c20Floor,
 		MinNontrivial: 50,
 		Phases: []fw.Phase{
-			{Name: "history", N: func(t fw.Tier) int { return pick(t, 3000, 300000) }, Run: c20Run},
+			{Name: "history", N: func(t fw.Tier) int { return pick(t, 10000, 400000) }, Run: c20Run},
 		},
 		Witness: sqlWitness,
 	})
